@@ -23,7 +23,7 @@ VARIABLES l, nbad, nskip
 Judged(r) == WellFormed(r.g) /\ InDomain(r.g)
 
 ConvOK(r) == Accept(r.g, r.o, r.obs)
-TruthOK(r) == TruthyD(r.obs) = r.truthy
+TruthOK(r) == r.obs.t = "gonil" \/ TruthyD(r.obs) = r.truthy
 TextOK(r) == PrintableD(r.obs) => (r.textok /\ r.text = TextD(r.obs, TRUE))
 
 Bad(n, what, x) == PrintT("BAD " \o ToString(n) \o " " \o what \o " " \o ToJson(x))
